@@ -164,46 +164,143 @@ def memOp (a r raft p t m : String) : Option String := do
   let hv := ",".intercalate (cp.2.map fun x => s!"{x.1}={x.2}")
   pure s!"{showV v} {showE e} acc={changeAccepted cl rf ty mem} h={cp.1}:{hv}"
 
+def showCM : CMRes → String
+  | .ok => "ok" | .pending => "pending" | .invalidReqType => "invreqtype" | .invalidAttr => "invalidattr"
+  | .invalidId => "invalidid" | .v r => "v:" ++ showV r | .e r => "e:" ++ showE r | .notLeader => "notleader"
+
+def sortedIds (l : List Nat) : String :=
+  ";".intercalate ((l.mergeSort (fun a b => decide (a ≤ b))).eraseDups.map toString)
+
+def pReq (s : String) : Option Req :=
+  match commas s with
+  | [ty, id, name, addr, ok, peer] => do
+    let ty ← ty.toNat?; let id ← id.toNat?; let okb ← pBool ok; let p ← unhex peer
+    pure ⟨ty, id, dash name, dash addr, okb, p⟩
+  | _ => none
+
+def mempOp (a r raft p pend via req gen : String) : Option String := do
+  let applied ← pList pMember (← stripPrefix "A=" a)
+  let removed ← pList String.toNat? (← stripPrefix "R=" r)
+  let prog ← pList pProg (← stripPrefix "P=" p)
+  let rf ← pRaft (← stripPrefix "raft=" raft) prog
+  let pd ← pBool (← stripPrefix "pend=" pend)
+  let v ← stripPrefix "via=" via
+  let rq ← pReq (← stripPrefix "req=" req)
+  let g ← (← stripPrefix "gen=" gen).toNat?
+  let cl : Cluster := ⟨applied, removed⟩
+  if v == "cm" then pure (showCM (changeMembership cl rf pd rq g))
+  else if v == "mk" then pure (showCM (makeConfChangeProposal cl rf pd rq g))
+  else none
+
+def memaOp (a r t m : String) : Option String := do
+  let applied ← pList pMember (← stripPrefix "A=" a)
+  let removed ← pList String.toNat? (← stripPrefix "R=" r)
+  let ty ← (← stripPrefix "t=" t).toNat?
+  let mem ← pMember (← stripPrefix "m=" m)
+  let (cl', v) := applyConfChange ⟨applied, removed⟩ ty mem
+  pure s!"{showV v} A={sortedIds (cl'.applied.map (·.id))} R={sortedIds cl'.removed}"
+
+def memrOp (a rm sa sr : String) : Option String := do
+  let applied ← pList pMember (← stripPrefix "A=" a)
+  let removed ← pList pMember (← stripPrefix "RM=" rm)
+  let sap ← pList pMember (← stripPrefix "SA=" sa)
+  let srm ← pList pMember (← stripPrefix "SR=" sr)
+  match recover ⟨applied, removed⟩ sap srm with
+  | none => pure "err"
+  | some (cl', eq) => pure s!"eq={eq} A={sortedIds (cl'.applied.map (·.id))} R={sortedIds (cl'.removed.map (·.id))}"
+
+/-- The operations of a WAL session that change the store. -/
+def parseOp : List String → Option Op
+  | ["best", b] => (pBlock b).map .best
+  | "write" :: items => (items.mapM pItem).map .write
+  | "save" :: hs :: ents => do
+    let h ← pHard hs
+    let es ← ents.mapM pRaftIn
+    pure (.save h es)
+  | ["hard", hs] => (pHard hs).map .hard
+  | ["snap", sn] =>
+    match commas sn with
+    | [i, t, b] => do
+      let i ← i.toNat?; let t ← t.toNat?; let blk ← pBlock b
+      pure (.snap ⟨i, t, blk⟩)
+    | _ => none
+  | ["ident", id] =>
+    match commas id with
+    | [c, i, n, p] => do
+      let c ← c.toNat?; let i ← i.toNat?
+      pure (.ident ⟨c, i, dash n, dash p⟩)
+    | _ => none
+  | ["restart"] => some .restart
+  | ["ccprog", id, st] => do
+    let i ← id.toNat?; let t ← st.toNat?
+    pure (.ccprog i t)
+  | ["clear"] => some .clear
+  | ["reset", a] => if a == "nil" then some (.reset none) else (pPair a).map (fun p => .reset (some p))
+  | _ => none
+
+/-- Split a word list at the separator `;;`. -/
+def splitOps (ws : List String) : List (List String) :=
+  let r := ws.foldl (fun (acc : List (List String) × List String) w =>
+    if w == ";;" then (acc.1 ++ [acc.2], []) else (acc.1, acc.2 ++ [w])) ([], [])
+  r.1 ++ [r.2]
+
+def showWal : WalState → String
+  | .noIdentity => "noidentity" | .nameMismatch => "name" | .peerMismatch => "peer" | .noHardState => "nohardstate" | .ok => "ok"
+
+def showHanded (h : Handed) : String :=
+  let sn := match h.snap with | none => "none" | some s => s!"{s.index},{s.term}"
+  s!"snap={sn} hs={showHard (some h.hard)} id={showIdent (some h.ident)} ents={h.ents.length}" ++
+    String.join (h.ents.map fun e => " " ++ showOut e)
+
+def showHand : HandRes → String
+  | .noWal w => "nowal:" ++ showWal w
+  | .emptyLog => "emptylog"
+  | .fatal (.read e) => "fatal:read:" ++ showReadErr e
+  | .fatal .identity => "fatal:identity"
+  | .fatal .snapOutOfDate => "fatal:snap-out-of-date"
+  | .raftPanics h => "raft-panics " ++ showHanded h
+  | .ok h => "ok " ++ showHanded h
+
 def stepLine (s : St) (line : String) : St × String :=
   match words line with
   | ["new"] => (RaftLog.empty, "ok")
-  | ["best", b] =>
-    match pBlock b with
-    | some blk => doOp s (.best blk)
-    | none => (s, "bad-op")
-  | "write" :: items =>
-    match items.mapM pItem with
-    | some its => doOp s (.write its)
-    | none => (s, "bad-op")
-  | "save" :: hs :: ents =>
-    match pHard hs, ents.mapM pRaftIn with
-    | some h, some es => doOp s (.save h es)
+  | "cut" :: k :: mx :: rest =>
+    match k.toNat?, mx.toNat?, (splitOps rest).mapM parseOp with
+    | some k, some mx, some ops =>
+      let sts := prefixStatesSeq s ops
+      let n := sts.length - 1
+      match sts[k]? with
+      | none => (s, s!"n={n} beyond")
+      | some c =>
+        match restart c with
+        | none => (s, s!"n={n} restart-fails")
+        | some c' => (s, s!"n={n} " ++ dump c' mx)
+    | _, _, _ => (s, "bad-op")
+  | "cuth" :: k :: cfg :: rest =>
+    match k.toNat?, commas cfg, (splitOps rest).mapM parseOp with
+    | some k, [n, p], some ops =>
+      let sts := prefixStatesSeq s ops
+      match sts[k]? with
+      | none => (s, s!"n={sts.length - 1} beyond")
+      | some c =>
+        match restart c with
+        | none => (s, s!"n={sts.length - 1} restart-fails")
+        | some c' => (s, s!"n={sts.length - 1} " ++ showHand (handOver c' ⟨dash n, dash p⟩))
+    | _, _, _ => (s, "bad-op")
+  | "crash" :: k :: rest =>
+    match k.toNat?, (splitOps rest).mapM parseOp with
+    | some k, some ops =>
+      match (prefixStatesSeq s ops)[k]? with
+      | none => (s, "beyond")
+      | some c =>
+        match restart c with
+        | none => (s, "restart-fails")
+        | some c' => (c', "ok")
     | _, _ => (s, "bad-op")
-  | ["hard", hs] =>
-    match pHard hs with
-    | some h => doOp s (.hard h)
-    | none => (s, "bad-op")
-  | ["snap", sn] =>
-    match commas sn with
-    | [i, t, b] =>
-      match i.toNat?, t.toNat?, pBlock b with
-      | some i, some t, some blk => doOp s (.snap ⟨i, t, blk⟩)
-      | _, _, _ => (s, "bad-op")
+  | ["handover", cfg] =>
+    match commas cfg with
+    | [n, p] => (s, showHand (handOver s ⟨dash n, dash p⟩))
     | _ => (s, "bad-op")
-  | ["ident", id] =>
-    match commas id with
-    | [c, i, n, p] =>
-      match c.toNat?, i.toNat? with
-      | some c, some i => doOp s (.ident ⟨c, i, dash n, dash p⟩)
-      | _, _ => (s, "bad-op")
-    | _ => (s, "bad-op")
-  | ["restart"] => doOp s .restart
-  | ["clear"] => doOp s .clear
-  | ["reset", a] =>
-    if a == "nil" then doOp s (.reset none)
-    else match pPair a with
-      | some p => doOp s (.reset (some p))
-      | none => (s, "bad-op")
   | ["dump", mx] =>
     match mx.toNat? with
     | some m => (s, dump s m)
@@ -232,7 +329,22 @@ def stepLine (s : St) (line : String) : St × String :=
     match memOp a r raft p t m with
     | some out => (s, out)
     | none => (s, "bad-op")
-  | _ => (s, "bad-op")
+  | ["memp", a, r, raft, p, pend, via, req, gen] =>
+    match mempOp a r raft p pend via req gen with
+    | some out => (s, out)
+    | none => (s, "bad-op")
+  | ["mema", a, r, t, m] =>
+    match memaOp a r t m with
+    | some out => (s, out)
+    | none => (s, "bad-op")
+  | ["memr", a, rm, sa, sr] =>
+    match memrOp a rm sa sr with
+    | some out => (s, out)
+    | none => (s, "bad-op")
+  | ws =>
+    match parseOp ws with
+    | some op => doOp s op
+    | none => (s, "bad-op")
 
 end C16Drv
 
